@@ -6,6 +6,14 @@ NOTES = ('Static analysis only: every verdict is computed from the ast of /repo/
          'Exit 2 + ANALYSIS-ERROR means the analysis could not decide (never a verdict).')
 
 CHECKS = {
+    'C04': {
+        'level': 'Exact 2-D Taylor signature of every cell of the six Hessian quotients with a distinct symbolic step per coordinate (exact on quadratics, '
+                 'correct divisor, error powers modelled by the Richardson stage; to total order 6, thorough 8), exact symmetry / full coverage of the fill, '
+                 'order tables and pass-through apply, Hessdiag rules for all orders (table level + end to end), shapes and data dependence of Hessian / '
+                 'Hessdiag calls incl. f returning a length-1 array, dtype-kind flow for complex valued f. Accuracy for non-quadratic f not decided.',
+        'note': 'Dimensions concretised to 1..3 (the quotients are uniform in the dimension). Trusted: abstract interpreter, exact algebra.',
+        'technique': 'abstract interpretation: stencil / multivariate Taylor-signature domain for the quotients, data-dependence domain for shapes and dtype kinds',
+    },
     'C15': {
         'level': 'fd_weights_all / fd_weights on symbolic distinct nodes (2..4, thorough 5) and symbolic expansion point equal the closed-form Lagrange-derivative '
                  'weights for all rows n < len(x) (rational function identities), under several ordering hypotheses of the nodes. Conditioning not decided.',
